@@ -1,6 +1,7 @@
 package rbc
 
 import (
+	"encoding/hex"
 	"encoding/json"
 	"fmt"
 	"os"
@@ -320,6 +321,31 @@ type byzcfg struct {
 	honestBc  bool // honest party 1 broadcasts too
 	budget    int
 	t         int // key-generation threshold below n (0: n)
+	// collide: the two payloads of round 1 are a pair whose digests agree on the first ("prefix8")
+	// or the last ("suffix8") 8 bytes
+	collide string
+}
+
+var collisions = map[string][2]string{
+	// fixtures/digest_collisions.json
+	"prefix8": {"01013a9c37e2e602bba5", "0101bb3ccedf07348966"},
+	"suffix8": {"010184b90e1618974339", "0101e1765ce6e32c65be"},
+}
+
+// body of the deviator's payload with tag t in round r.
+func (b byzcfg) body(r uint8, t byte) []byte {
+	if b.collide != "" && r == 1 && (t == 'x' || t == 'y') {
+		i := 0
+		if t == 'y' {
+			i = 1
+		}
+		raw, err := hex.DecodeString(collisions[b.collide][i])
+		if err != nil {
+			panic(err)
+		}
+		return raw
+	}
+	return bcastBody(r, t)
 }
 
 func (b byzcfg) rc() rcfg {
@@ -339,7 +365,7 @@ func (b byzcfg) actions() []Event {
 		for _, h := range b.honest {
 			for _, r := range b.rounds {
 				for _, t := range tags {
-					evs = append(evs, Event{Kind: 'B', From: bz, To: h, Data: mpcPayload(bcastBody(r, t))})
+					evs = append(evs, Event{Kind: 'B', From: bz, To: h, Data: mpcPayload(b.body(r, t))})
 				}
 			}
 		}
@@ -381,7 +407,7 @@ func (b byzcfg) actions() []Event {
 				for _, r := range b.rounds {
 					var ds []string
 					for _, t := range tags {
-						ds = append(ds, digestOf(bcastBody(r, t)))
+						ds = append(ds, digestOf(b.body(r, t)))
 					}
 					if b.honestBc {
 						ds = append(ds, digestOf(bcastBody(r, byte(b.honest[0]))))
@@ -570,12 +596,19 @@ func gen(c *harness.C) []harness.Case {
 				{name: "N4", honest: []uint16{1, 2, 3}, byz: []uint16{4}, outsider: 9, rounds: []uint8{1}, honestBc: false, budget: 5},
 				{name: "N4b2", honest: []uint16{1, 2}, byz: []uint16{3, 4}, outsider: 9, rounds: []uint8{1}, budget: 5},
 				{name: "N5b2", honest: []uint16{1, 2, 3}, byz: []uint16{4, 5}, rounds: []uint8{1}, budget: 5},
+				{name: "N3-prefix-collision", honest: []uint16{1, 2}, byz: []uint16{3}, rounds: []uint8{1}, budget: 5, collide: "prefix8"},
+				{name: "N3-suffix-collision", honest: []uint16{1, 2}, byz: []uint16{3}, rounds: []uint8{1}, budget: 5, collide: "suffix8"},
+				{name: "N4-prefix-collision", honest: []uint16{1, 2, 3}, byz: []uint16{4}, rounds: []uint8{1}, budget: 5, collide: "prefix8"},
+				{name: "N3t2", honest: []uint16{1, 2}, byz: []uint16{3}, rounds: []uint8{1}, budget: 4, t: 2},
+				{name: "N4t2", honest: []uint16{1, 2, 3}, byz: []uint16{4}, rounds: []uint8{1}, budget: 4, t: 2},
 			}
 		} else {
 			bs = []byzcfg{
 				{name: "N3", honest: []uint16{1, 2}, byz: []uint16{3}, outsider: 9, rounds: []uint8{1}, honestBc: true, budget: 4},
 				{name: "N4", honest: []uint16{1, 2, 3}, byz: []uint16{4}, outsider: 9, rounds: []uint8{1}, budget: 4},
 				{name: "N4b2", honest: []uint16{1, 2}, byz: []uint16{3, 4}, rounds: []uint8{1}, budget: 4},
+				{name: "N3-prefix-collision", honest: []uint16{1, 2}, byz: []uint16{3}, rounds: []uint8{1}, budget: 4, collide: "prefix8"},
+				{name: "N3-suffix-collision", honest: []uint16{1, 2}, byz: []uint16{3}, rounds: []uint8{1}, budget: 4, collide: "suffix8"},
 				{name: "N3t2", honest: []uint16{1, 2}, byz: []uint16{3}, rounds: []uint8{1}, budget: 3, t: 2},
 				{name: "N4t2", honest: []uint16{1, 2, 3}, byz: []uint16{4}, rounds: []uint8{1}, budget: 3, t: 2},
 			}
